@@ -38,13 +38,16 @@ func genC06(t *rapid.T) C06Case {
 	return C06Case{Family: fam, Conv: c}
 }
 
-func factsOf(outs []*kit.ConvOut) []kit.StreamFacts {
+func factsOf(outs []*kit.ConvOut, topo kit.Topo) []kit.StreamFacts {
 	var fs []kit.StreamFacts
 	for _, o := range outs {
 		if o.ID == 0 {
 			continue
 		}
 		f := kit.StreamFacts{Conn: o.Conn, Client: o.Conn, Server: kit.ServerName, ID: o.ID, Method: kit.FullMethod(o.Name), Unary: o.Conv.Kind == kit.KindUnary}
+		if topo.Alias && topo.Kind == "proxy" {
+			f.ReqDest = kit.ServerAlias // the proxy rewrites the address; on the client's link every envelope of a call carries the alias
+		}
 		if f.Unary {
 			f.HandlerReturned = len(o.UH.Reqs) > 0 && o.UDone
 		} else {
@@ -60,7 +63,7 @@ func execC06(t *testing.T, c C06Case) (v Verdict) {
 	if res.Panic != nil {
 		v.failf("panic: %v\n%s", res.Panic, res.Stack)
 	}
-	viol, projections, nontrivial := kit.CheckWire(tap, factsOf(outs))
+	viol, projections, nontrivial := kit.CheckWire(tap, factsOf(outs, c.Conv.Topo))
 	for _, m := range viol {
 		v.failf("%s", m)
 	}
